@@ -505,6 +505,43 @@ pub fn make(spec: &FileSpec) -> io::Result<Made> {
     Ok(made)
 }
 
+/// See `make_inner`: grows l_text by 2..=400 NUL bytes appended to the header text.
+fn pad_bcf_header(kind: Kind, bytes: Vec<u8>, seed: u64) -> Vec<u8> {
+    let raw: Vec<u8> = if kind == Kind::Bcf {
+        match mbgzf::walk(&bytes) {
+            Ok(w) => w.data,
+            Err(_) => return bytes,
+        }
+    } else {
+        bytes.clone()
+    };
+    if raw.len() < 9 || &raw[..3] != b"BCF" {
+        return bytes;
+    }
+    let l_text = u32::from_le_bytes([raw[5], raw[6], raw[7], raw[8]]) as usize;
+    if 9 + l_text > raw.len() {
+        return bytes;
+    }
+    let pad = 2 + (seed / 4 % 399) as usize;
+    let mut out = Vec::with_capacity(raw.len() + pad);
+    out.extend_from_slice(&raw[..5]);
+    out.extend_from_slice(&((l_text + pad) as u32).to_le_bytes());
+    out.extend_from_slice(&raw[9..9 + l_text]);
+    out.resize(out.len() + pad, 0);
+    let split = out.len() - pad / 2;
+    out.extend_from_slice(&raw[9 + l_text..]);
+    if kind == Kind::BcfRaw {
+        return out;
+    }
+    let mut file = Vec::new();
+    let (head, tail) = out.split_at(split);
+    for chunk in head.chunks(60_000).chain(tail.chunks(60_000)) {
+        file.extend_from_slice(&mbgzf::rebuild_member(chunk));
+    }
+    file.extend_from_slice(&mbgzf::EOF_MARKER);
+    file
+}
+
 fn make_inner(spec: &FileSpec) -> io::Result<Made> {
     let (model, companion) = model_with_companion(spec)?;
     let cram_refs = match spec.kind {
@@ -527,6 +564,9 @@ fn make_inner(spec: &FileSpec) -> io::Result<Made> {
         write_to(kind, &model, &mut v)?;
         v
     };
+    // BCF: a quarter of the files carry a header text padded with extra NULs (l_text counts them; valid,
+    // other writers do it), and in the BGZF form a block boundary falls inside the padding
+    let bytes = if matches!(kind, Kind::Bcf | Kind::BcfRaw) && spec.seed % 4 == 1 { pad_bcf_header(kind, bytes, spec.seed) } else { bytes };
     let (boundaries, flat) = if kind.is_bgzf_container() {
         bgzf_boundaries(&bytes)
     } else {
